@@ -125,6 +125,7 @@ def c15(tier, seed):
     try:
         cases = gen.derivation_cases(rng, 30 if tier == "quick" else 600)
         cases += common.witness_cases("C15")
+        cases = common.replay_cases() or cases
 
         def ops(c):
             return [{"op": "synth", "strategy": SAT, "n": pipeline.CAP, "exhaust": True},
